@@ -1,6 +1,50 @@
-//! lex ops. Stub until the layer is built. Mirror of coq/Extract/Ops*.v
+//! lex ops (C13): mirror of coq/Extract/OpsLex.v
+//! 3002  input = k, k opaque ints (metadata for the check's oracle), then as 3001
+//! 3001  input = code points of the whole text; output = 0 ntokens (kind line column len codes..)* | 2 class | -2
 use crate::I;
+use asn1rs_model::parse::{Token, Tokenizer};
 
-pub fn run(_op: I, _a: &[I]) -> Vec<I> {
-    vec![-1]
+fn text_of(a: &[I]) -> Option<String> {
+    let mut s = String::with_capacity(a.len());
+    for v in a {
+        if *v < 0 || *v > 0x10FFFF {
+            return None;
+        }
+        s.push(char::from_u32(*v as u32)?);
+    }
+    Some(s)
+}
+
+pub fn run(op: I, a: &[I]) -> Vec<I> {
+    match op {
+        3002 if !a.is_empty() => {
+            let k = (a[0].max(0) as usize).min(a.len() - 1);
+            run(3001, &a[1 + k..])
+        }
+        3001 => {
+            let Some(text) = text_of(a) else {
+                return vec![-2];
+            };
+            match crate::catch(|| Tokenizer::default().parse(&text)) {
+                Ok(tokens) => {
+                    let mut o: Vec<I> = vec![0, tokens.len() as I];
+                    for t in &tokens {
+                        let loc = t.location();
+                        match t {
+                            Token::Text(_, s) => {
+                                o.extend([0, loc.line() as I, loc.column() as I, s.chars().count() as I]);
+                                o.extend(s.chars().map(|c| c as u32 as I));
+                            }
+                            Token::Separator(_, c) => {
+                                o.extend([1, loc.line() as I, loc.column() as I, 1, *c as u32 as I]);
+                            }
+                        }
+                    }
+                    o
+                }
+                Err(class) => vec![2, class],
+            }
+        }
+        _ => vec![-1],
+    }
 }
